@@ -141,10 +141,11 @@ Definition navinv (i curr : nat) (path : list nat) (pb : nat) (pw pd : Q) : Prop
 
 Definition navpost (i j : nat) (r : navres) : Prop :=
   hd j (nv_path r) = i /\ nv_path r <> [] /\ chain L (nv_path r) /\ Forall (fun v => (v < n)%nat) (nv_path r) /\
-  match nv_len r with
-  | Some (b, w, d) => last (nv_path r) i = j /\ S b = length (nv_path r) /\
-                      w == lsum L (nv_path r) /\ d == lsum D (nv_path r)
-  | None => True
+  match nv_bin r, nv_wei r, nv_dis r with
+  | Some b, Some w, Some d => last (nv_path r) i = j /\ S b = length (nv_path r) /\
+                              w == lsum L (nv_path r) /\ d == lsum D (nv_path r)
+  | None, None, None => last (nv_path r) i <> j          (* failed: all three infinite, target not reached *)
+  | _, _, _ => False                                     (* never infinite in some but not all three *)
   end.
 
 Lemma nav_loop_inv fuel : forall target curr last path pb pw pd i r,
@@ -153,18 +154,19 @@ Lemma nav_loop_inv fuel : forall target curr last path pb pw pd i r,
 Proof.
   induction fuel as [|f IH]; intros target curr lst path pb pw pd i r [p [Ep [Hhd [Hc [Hb [Hlen [Hw Hd]]]]]]] Hrun.
   - cbn [nav_loop] in Hrun. destruct (Nat.eqb_spec curr target) as [->|Hne]; [|discriminate].
-    injection Hrun as <-. unfold navpost. cbn [nv_path nv_len].
+    injection Hrun as <-. unfold navpost. cbn [nv_path nv_bin nv_wei nv_dis].
     split; [subst path; destruct p; cbn in *; auto|].
     split; [subst path; destruct p; discriminate|]. split; [exact Hc|]. split; [exact Hb|].
     split; [subst path; apply last_snoc|]. auto.
   - cbn [nav_loop] in Hrun. destruct (Nat.eqb_spec curr target) as [->|Hne].
-    + injection Hrun as <-. unfold navpost. cbn [nv_path nv_len].
+    + injection Hrun as <-. unfold navpost. cbn [nv_path nv_bin nv_wei nv_dis].
       split; [subst path; destruct p; cbn in *; auto|].
       split; [subst path; destruct p; discriminate|]. split; [exact Hc|]. split; [exact Hb|].
       split; [subst path; apply last_snoc|]. auto.
-    + assert (Hfail : navpost i target (mknav path None)).
-      { unfold navpost. cbn [nv_path nv_len]. split; [subst path; destruct p; cbn in *; auto|].
-        split; [subst path; destruct p; discriminate|]. auto. }
+    + assert (Hfail : navpost i target (nav_failed path)).
+      { unfold navpost, nav_failed. cbn [nv_path nv_bin nv_wei nv_dis]. split; [subst path; destruct p; cbn in *; auto|].
+        split; [subst path; destruct p; discriminate|]. split; [exact Hc|]. split; [exact Hb|].
+        subst path. rewrite last_snoc. exact Hne. }
       destruct (neighbors n L curr) as [|v0 rr] eqn:En; [injection Hrun as <-; exact Hfail|].
       set (next := argmin_first (fun v => D target v) v0 rr) in *.
       destruct (_ || _)%bool; [injection Hrun as <-; exact Hfail|].
